@@ -14,6 +14,8 @@ CONSTANTS
   MaxRounds = 1
   MaxOps = 9
   EmitAt = 0
+  Jumps = {1, 301, 601, 5000}
+  MaxAdv = 1
 INIT GInit
 NEXT GNextC
 VIEW GView
